@@ -1407,6 +1407,23 @@ fn stream_rel(thorough: bool, seed: u64, out: &mut dyn Write) {
             longer.extend_from_slice(b"-zzzzz");
             writeln!(out, "eqstr {} {}", hex(&spelled), hex(&longer)).unwrap();
             writeln!(out, "eqstr {} {}", hex(&spelled), hex(&canon[..canon.len() - 1])).unwrap();
+            // the canonical text cut at every subtag boundary, and with one inner subtag left out
+            for k in 1..toks.len() {
+                let cut = join(&toks[..k].iter().collect::<Vec<_>>(), b'-');
+                writeln!(out, "eqstr {} {}", hex(&spelled), hex(&cut)).unwrap();
+                let mut without: Vec<&Vec<u8>> = toks.iter().collect();
+                without.remove(k);
+                writeln!(out, "eqstr {} {}", hex(&spelled), hex(&join(&without, b'-'))).unwrap();
+            }
+        }
+        if i % 5 == 2 {
+            // an identifier against its own canonical text cut at every subtag boundary
+            let idt: Vec<Vec<u8>> = a.tokens().into_iter().take(1 + a.script.iter().count() + a.region.iter().count() + a.variants.len()).collect();
+            let spelled = render(&mut r, &idt, 2);
+            for k in 1..idt.len() {
+                let cut: Vec<u8> = render(&mut r, &idt[..k], 0);
+                writeln!(out, "eqstr {} {}", hex(&spelled), hex(&cut)).unwrap();
+            }
         }
         if i % 5 == 0 {
             let li: Vec<Vec<u8>> = a.tokens().into_iter().take(1 + r.below(3)).collect();
